@@ -3,6 +3,7 @@ From Coq Require Import List Arith ZArith Bool Orders.
 From MM Require Import lib.ListSet lib.Values model.Heap model.Elig model.SearchParams model.SearchDefs model.Search
   proofs.GroupSpecs proofs.ExhaustiveProofs proofs.GreedyProofs proofs.GreedyEnum.
 Import ListNotations.
+From MM Require Import gen.Gen_HeapDict gen.Gen_Exhaustive gen.Gen_Greedy proofs.OrderIso proofs.ExhaustiveBridge proofs.GreedyBridge.
 
 (* Premises (named in the trusted base): on the three tests that the two searches phrase
    differently the value type behaves like exact arithmetic (1.0 = float(1); a <= b iff not b < a,
@@ -50,9 +51,39 @@ Module C13 (K : UsualOrderedTypeFull').
         greedy O G.E.HP.kltb (assignments_of es) par shareS bud skey zero_key fuel = Some ds ->
         exhaustive O G.E.HP.kltb (assignments_of es) par shareS optB bud skey = [] -> ds = [].
   Proof. exact @G.greedy_empty_when_exhaustive_empty. Qed.
+
+  (* stated on the two functions regenerated on this run from exhaustive_search and _greedy_search themselves:
+     no design the translated greedy search returns scores above every design the translated exhaustive search returns *)
+  Theorem C13_translated_greedy_not_above_translated_exhaustive :
+    forall (V : Type) (O : vops V) (es : list elig) (par : spar V)
+           (shareS optB : set -> V) (bud : set -> set -> V) (skey : set -> set -> K.t) (replace_inv : K.t -> V -> K.t) (zero_key : K.t),
+      vlit O 1 0 = vofZ O 1 ->
+      (forall a b, vleb O a b = negb (vltb O b a)) ->
+      (forall x y, vltb O (vofZ O x) (vofZ O y) = (x <? y)%Z) ->
+      (forall a b, same_set a b -> shareS a = shareS b) ->
+      (forall T T' C C', same_set T T' -> same_set C C' -> skey T C = skey T' C') ->
+      p_budget_range par = None -> p_treatment_share_range par = None -> (1 <= p_n_designs par)%nat ->
+      forall fuel r d,
+        gen_greedy_search O G.E.HP.kltb (assignments_of es) par shareS bud skey zero_key fuel = Some r -> In d (dd_get r 0%Z) ->
+        exists e, In e (dd_get (gen_exhaustive_search O G.E.HP.kltb (assignments_of es) par shareS optB bud skey replace_inv) 0%Z) /\
+                  K.le (des_key d) (des_key e).
+  Proof.
+    intros V O es par shareS optB bud skey replace_inv zero_key H1 H2 H3 H4 H5 Hb Hs Hn fuel r d Hr Hd.
+    destruct (gen_greedy_in O G.E.HP.kltb _ par shareS bud skey zero_key fuel r d Hr Hd) as [ds [Hg Hin]].
+    destruct (gen_greedy_designs_own_their_diag O G.E.HP.kltb _ par shareS bud skey zero_key fuel r d Hr Hd) as [_ Hk].
+    rewrite (surjective_pairing (des_groups d)) in Hin.
+    destruct (G.greedy_not_above_exhaustive O es par shareS optB bud skey zero_key H1 H2 H3 H4 H5 Hb Hs Hn fuel ds _ _ Hg Hin) as [r0 [Hr0 Hle]].
+    assert (Hst : forall T C, stored_key O par bud skey replace_inv T C = skey T C) by (intros; unfold stored_key; rewrite Hb; reflexivity).
+    exists (lift O par bud skey replace_inv r0). split.
+    - rewrite gen_exhaustive_is_model. apply in_map.
+      rewrite (exhaustive_order_iso O G.E.HP.kltb G.E.HP.kltb _ par shareS optB bud (stored_key O par bud skey replace_inv) skey); [exact Hr0|].
+      intros. rewrite !Hst. reflexivity.
+    - unfold des_key at 2, lift. cbn [fst]. rewrite Hst. unfold des_key. rewrite Hk. exact Hle.
+  Qed.
 End C13.
 
 Print Assumptions C13_greedy_designs_are_in_the_exhaustive_space.
 Module C13Z := C13 Z.
 Print Assumptions C13Z.C13_greedy_not_above_exhaustive_optimum.
 Print Assumptions C13Z.C13_greedy_empty_when_exhaustive_empty.
+Print Assumptions C13Z.C13_translated_greedy_not_above_translated_exhaustive.
